@@ -185,7 +185,7 @@ func (comp) Gen(r *kit.Rng, maxLen int, tier string) kit.Case {
 	}
 	stressed := false
 	for i := 0; i < n; i++ {
-		switch r.Pick(30, 16, 40, 6, 3) {
+		switch r.Pick(30, 16, 40, 6, 2) {
 		case 0:
 			curC = genCfgTok(r, curC, &nonce)
 			ops = append(ops, "wc "+curC)
@@ -205,9 +205,9 @@ func (comp) Gen(r *kit.Rng, maxLen int, tier string) kit.Case {
 		case 4:
 			if !stressed {
 				stressed = true
-				g, rounds := 2+r.Intn(7), 3+r.Intn(6)
+				g, rounds := 2+r.Intn(3), 2+r.Intn(3)
 				if tier == "thorough" {
-					g, rounds = 4+r.Intn(13), 10+r.Intn(30)
+					g, rounds = 4+r.Intn(13), 5+r.Intn(16)
 				}
 				ops = append(ops, fmt.Sprintf("stress %d %d %d", g, rounds, r.Intn(2)))
 				curC = "?" // the harness reports which content the stress ended on
@@ -429,6 +429,9 @@ func (r *runner) Do(op []string) (string, bool) {
 func (r *runner) stress(g, rounds, mode int) string {
 	dbl, miss, lost, applied := 0, 0, 0, 0
 	last, disk := "", ""
+	if rounds < 1 {
+		rounds = 1
+	}
 	for i := 0; i < rounds; i++ {
 		var toks []string
 		writes := 1
